@@ -29,7 +29,9 @@ CHECKS = {
               "shape (comprehension map rule); unbatch() for b1,b2 in 1..3 with symbolic element dims (keeps the element shape "
               "also when a dim is 1); and, under pmap axioms (psum=D, axis_index=r, all_gather), the post-condition of the real "
               "_pmap_compute_preconditioners that slot k holds gate(prev[k], Root(stat[k], exponent[k], size[k])) - an expression "
-              "that does not mention D - for an enumerated (N,D) grid with symbolic matrices. Not a multi-device execution."),
+              "that does not mention D - for an enumerated (N,D) grid with symbolic matrices of per-statistic symbolic sizes, one or several "
+              "statistics per parameter, plus the frame obligation that slot k reads statistic k and preconditioner k only (no arithmetic on "
+              "another replica's data, even with a zero coefficient). Not a multi-device execution."),
         design="7/C13",
         note=TB + " pmap collectives are axioms; the inverse-root routine enters as an uninterpreted function of "
         "(matrix named by its generic entry, exponent, padding).",
@@ -39,7 +41,9 @@ CHECKS = {
         text=("Contracts on the real _fd_low_rank_pack/_fd_low_rank_unpack/_low_rank_pack/_low_rank_unpack (round trip of all six "
               "fields pointwise for symbolic d, r with |r|+2<d, both signs; the internal asserts hold exactly under that "
               "precondition and reject outside it), _precond_dim <=> _should_compress, the index selection of _low_rank_root "
-              "(kept columns are the |r| largest / smallest-unpadded eigh columns; symbolic d, r, padding), and the compressed "
+              "(kept columns are the |r| largest / smallest-unpadded eigh columns; retained and averaged root values are max(lambda, ridge)^(-1/p) "
+              "for whatever eigenvalues eigh returns, the constant is their sum over the unpadded dimension minus |r|; symbolic d, r, padding), "
+              "the flagged (has_zeros) application returns the gradient bit for bit for all float32 contents incl. inf/NaN, and the compressed "
               "branch of Preconditioner._precondition_block against the dense matrix c(I-VV')+V diag(e) V' as a polynomial "
               "identity with every tensor entry symbolic at small concrete sizes (d=4, r=+-1, gradient rank 1..3)."),
         design="7/C10",
@@ -49,7 +53,8 @@ CHECKS = {
     ),
     "C17": dict(
         text=("The real per-group body of create_redist_dict (rd, is_outlier, grp_info, the proportional loop, the code's own "
-              "assertions, the leftover loop) is executed for one symbolic group - size n, dimension, base rank and all scores "
+              "assertions, the leftover loop) is executed for an arbitrary group of a SYMBOLIC number of groups (loop contract on the loop over "
+              "groups; a loop-carried variable the contract does not havoc makes the run undecided) - size n, dimension, base rank and all scores "
               "symbolic - with two loop invariants over a finite map with a ghost Sum; post: every key gets an integer rank in "
               "[1, dim] and the group sum is at most n * rank. Scores and every float expression are opaque reals (rd() "
               "returns some integer), so the proof does not depend on a float model. create_groups is checked on small "
@@ -79,7 +84,8 @@ CHECKS = {
               "dimension and tensor entry symbolic (pointwise at a Skolem index; each norm is shown to range over the right "
               "tensor); _compute_stats/gram_weighted_update weights and contraction axes incl. the statistics interval; dense "
               "preconditioner application along each axis for 3 preconditioner types as a polynomial identity at small sizes; "
-              "phase order of update_fn. preconditioned_grad and the roots enter through contracts. End-to-end float agreement "
+              "phase order of update_fn; the exponent handed to the root routine (2 x #preconditioned axes or the override, rank 1..4 x 3 types); "
+              "which parameters are preconditioned at all (skip thresholds on the parameter's own shape). preconditioned_grad and the roots enter through contracts. End-to-end float agreement "
               "is not a proof obligation (bounded native reference in the thorough tier)."),
         design="7/C02",
         note=TB + " Norms are uninterpreted reductions with bound/zero facts; preconditioned_grad is an opaque tensor of the gradient's shape.",
@@ -125,9 +131,11 @@ CHECKS = {
               "objects, parameters written only per the sidecar assigns clauses, no process-global randomness/time/environment), "
               "plus the alias rule by symbolic execution of the real update entry points (Distributed Shampoo update_fn, SM3, "
               "Tearfree Shampoo / Sketchy / grafting / momentum) with every state leaf tagged as a caller-owned NumPy array: no "
-              "augmented assignment reaches a leaf or a view of it. Compile-level effects and the actual serialization are "
-              "reached only by the labelled bounded native resume harness (7 optimizer modes x interruption points), which "
-              "runs in both tiers and is not counted as proved."),
+              "augmented assignment reaches a leaf or a view of it, and no lax.cond / lax.while_loop body computes on a state leaf it merely "
+              "captured (closure-capture rule: such a leaf is a compile-time constant after a restore), for the whole C07 option grid with "
+              "intervals > 1; module-level stateful objects (generators seeded at import ...) must not be used inside functions. The actual "
+              "serialization and remaining compile-level effects are reached only by the labelled bounded native resume harness (13 optimizer "
+              "modes x interruption points), which runs in both tiers and is not counted as proved."),
         design="7/C14",
         note=TB + " The frame checker is syntactic and conservative; NumPy aliasing semantics (in-place augmented assignment, "
         "views from basic indexing, jnp results fresh) are modelled; flax serialization and XLA determinism are assumed.",
@@ -140,7 +148,9 @@ CHECKS = {
               "sharded_update_fn extracted mechanically: for all 2^64 (error, threshold) pairs incl. NaN/Inf/-0/subnormals and "
               "arbitrary bit patterns of the old and new root, the stored value is bitwise old or bitwise new, and it differs from "
               "old only if error is not NaN and error < threshold; on non-refresh steps (error = threshold) the old root is kept "
-              "(pins >=). Loop-free over the full domain: a complete proof of the gate. Slot bookkeeping is C13-P3; range analysis "
+              "(pins >=), and through the real _pmap_compute_preconditioners a step that does not recompute roots keeps every preconditioner for "
+              "ANY real threshold (the placeholder error is rejected by the gate); an accepted eigh root is defined (positive power base "
+              "whatever eigh returns). Loop-free over the full domain: a complete proof of the gate. Slot bookkeeping is C13-P3; range analysis "
               "of the root routines (finiteness of the update) is not claimed."),
         design="7/C03",
         note=TB + " Float model: SMT-LIB FloatingPoint with one NaN; FTZ/DAZ applied to operands and results; lax.cond = select with both branches traced.",
@@ -151,9 +161,10 @@ CHECKS = {
               "the real _compute_stats keeps the statistics objects unless count % statistics_compute_steps = 0; the real "
               "_pmap_compute_preconditioners (symbolic interval >= 2, and interval 1; root routine as a contract) keeps every "
               "preconditioner and the diagnostics unless count % interval = 0 and otherwise stores gate(prev, Root(statistics')); "
-              "_update_preconditioners_fn dispatch, efficient_cond, the scheduled interval (>= 1, 1 or a multiple of 10), count+1 and "
-              "phase order of update_fn; Tearfree Shampoo/Sketchy _update keep blocks/sketches on non-refresh steps and advance count "
-              "by one. Warm-up boundary: C02-P1 / C05-P2. sharded_update_fn as a whole is not executed."),
+              "the same under a SCHEDULED interval (configured 1 or symbolic, the interval in force being the schedule's value) and for any "
+              "failure threshold; _update_preconditioners_fn dispatch, efficient_cond, the scheduled interval (>= 1, 1 or a multiple of 10), count+1 and "
+              "phase order of update_fn; Tearfree Shampoo/Sketchy _update keep blocks/sketches on non-refresh steps, refresh the roots on "
+              "every multiple of the preconditioner interval from the eigh of the current statistics, and advance count by one. Warm-up boundary: C02-P1 / C05-P2. sharded_update_fn as a whole is not executed."),
         design="7/C04",
         note=TB + " Bit-identity on non-refresh steps is object identity / pointwise equality in the VC; lax.cond/while_loop per section 4.3.",
         technique="contract-based deductive verification: transition contract with symbolic step counter, AST->VC, z3",
@@ -165,7 +176,8 @@ CHECKS = {
               "(6 placements of large axes, symbolic number of blocks) every output of block b0 reads gradient, statistics and "
               "roots of block b0 only, and the einsum contracts axis a with root a; for Distributed Shampoo (2 blocks, symbolic "
               "dims) statistic k reads the gradient inside block k//n only and block i is preconditioned by roots [i*n,(i+1)*n) and "
-              "its own gradient only. Two runs agreeing on a block's reads agree on its outputs."),
+              "its own gradient only; the acceptance gate is per statistic (slot k = gate(prev k, root k, error k) whatever the other blocks of "
+              "the tensor do). Two runs agreeing on a block's reads agree on its outputs."),
         design="7/C08",
         note=TB + " Reads analysis (pyvc/deps.py): a term's value is a function of its reads; batched eigh is block-local (library contract).",
         technique="contract-based deductive verification: relational frame condition via dependency (reads) analysis of AST->term symbolic execution, z3",
@@ -205,9 +217,14 @@ CHECKS = {
               "inner iteration and the retry loop, proved pointwise with the 'non-zero sum has a non-zero term' contraction axiom); "
               "all-padding gives the zero matrix with error 0; and what is reported: error = max|M - I_masked| of the final tracked "
               "iterate (>= 0), the retry ridge ridge_epsilon*max(max_ev,1e-25)*10^i on the masked identity, the convergence blend. "
-              "Accuracy/convergence, the residual algebra M = X^p(A+dI), eigh padding zeros and LOBPCG are not claimed."),
+              "mat_power has the functional contract M^p (loop invariant over a spec power, symbolic p, 1x1); the error figure is honest: the real "
+              "_iter_body/_outer_body_fn executed on commuting tokens preserve mat_m = mat_h^p (A+dI) and give |X^p (A+dI) - I| <= reported "
+              "error for the returned iterate (exact arithmetic); power_iteration returns the Rayleigh quotient of the last normalised "
+              "iterate unchanged (so, by the cited Rayleigh bound, never more than lambda_max); the eigh route never raises a "
+              "non-positive base to the inverse power whatever eigh returns. Convergence, rounding slack, eigh padding zeros and LOBPCG "
+              "are not claimed."),
         design="7/C01",
-        note=TB + " power_iteration enters as a contract (opaque vector and eigenvalue estimate); eigh opaque; termination not proved.",
+        note=TB + " eigh opaque; Rayleigh bound and the power identities (Lean lemmas/Spec.lean) cited; termination not proved.",
         technique="contract-based deductive verification: loop invariants on the real lax.while_loop bodies, AST->VC, z3",
     ),
     "C07": dict(
